@@ -19,18 +19,29 @@ def strip(tr):
 
 
 def validate(chk, traces, what):
-    """-> (asis_missing, own_missing, fails) from one TLC batch run of LifeTrace."""
+    """-> (asis_missing, own_missing, fails) from chunked parallel TLC batch runs of LifeTrace (1-based trace ids)."""
     if not traces:
         return set(), set(), {}
-    ws = core.tla_workspace()
-    path = os.path.join(ws, 'traces.json')
-    with open(path, 'w') as fh:
-        json.dump([strip(t) for t in traces], fh)
-    r = core.run_tlc(ws, 'LifeTrace', 'LifeTrace.cfg', workers=1, env={'TRACE_FILE': path}, timeout=3600)
-    chk.add_tlc(r, 'LifeTrace %s (%d traces, %d events)' % (what, len(traces), sum(len(t['ev']) for t in traces)))
-    missing, fails = core.trace_report(r)
-    own = r.printed_json('OWN_MISSING')
-    own_missing = set(int(x) for x in own[-1]) if own else set()
+    nchunks = max(1, min(8, len(traces) // 50 or 1))
+    chunks = [list(range(i, len(traces), nchunks)) for i in range(nchunks)]
+
+    def one(idxs):
+        ws = core.tla_workspace()
+        path = os.path.join(ws, 'traces.json')
+        with open(path, 'w') as fh:
+            json.dump([strip(traces[i]) for i in idxs], fh)
+        return idxs, core.run_tlc(ws, 'LifeTrace', 'LifeTrace.cfg', workers=1, env={'TRACE_FILE': path}, timeout=7200)
+    missing, own_missing, fails = set(), set(), {}
+    for idxs, r in core.parallel([(lambda c=c: one(c)) for c in chunks], max_workers=8):
+        chk.add_tlc(r, 'LifeTrace %s (%d traces, %d events)' % (what, len(idxs), sum(len(traces[i]['ev']) for i in idxs)))
+        mm, ff = core.trace_report(r)
+        own = r.printed_json('OWN_MISSING')
+        for tid in mm:
+            missing.add(idxs[tid - 1] + 1)
+        for tid in (own[-1] if own else []):
+            own_missing.add(idxs[int(tid) - 1] + 1)
+        for tid, cl in ff.items():
+            fails.setdefault(idxs[tid - 1] + 1, set()).update(cl)
     return missing, own_missing, fails
 
 
@@ -160,7 +171,7 @@ def run_c08(chk):
     names = ['A', 'B', 'C']
     pairs = [(a, b) for a in kinds for b in kinds]
     rng.shuffle(pairs)
-    pairs = pairs if thorough else pairs[:8]
+    pairs = pairs[:28] if thorough else pairs[:8]
     for ka, kb in pairs:
         reqs = [(ka, 'A'), (kb, 'B')]
         na, nb = len(progs[ka]), len(progs[kb])
@@ -172,7 +183,7 @@ def run_c08(chk):
         # two pre-emptions
         cand = [(a, b) for a in range(1, na) for b in range(1, nb)]
         rng.shuffle(cand)
-        for a, b in cand[:(len(cand) if thorough else 60)]:
+        for a, b in cand[:(500 if thorough else 60)]:
             execute(reqs, [0] * a + [1] * b + [0] * (na + 2))
     # three threads, sampled
     for _ in range(200 if thorough else 25):
